@@ -112,6 +112,47 @@ Theorem C13_oracle_accepts_model : forall e sk subs confs m,
 Proof. exact oracle_accepts_model. Qed.
 Print Assumptions C13_oracle_accepts_model.
 
+(** The same for Bitfinex, whose messages are identified through the confirmations. *)
+Theorem C13_oracle_accepts_model_bitfinex : forall sk subs confs m,
+  bfx_confs_ok confs ->
+  msg_prop Bitfinex sk subs confs m (transform Bitfinex sk (transformer_map Bitfinex sk subs confs) m) = true.
+Proof. exact oracle_accepts_model_bitfinex. Qed.
+Print Assumptions C13_oracle_accepts_model_bitfinex.
+
+(** ORACLE SOUNDNESS at case level, all connectors: for every correspondence case inside the
+    decidable domain [in_domain] (input requirements [wf_case]; strikes without lower-case
+    letters; payload channels without '|', Bybit symbols without '.'; Bitfinex: distinct channel
+    ids, each market confirmed once on the trades channel, and - the one observed fact that is
+    not a model output - the venue was asked for the market of every subscribed instrument):
+    if the implementation's observed table and outcomes equal the model's ([corr_b]) then the
+    property oracle holds ([prop_b]). *)
+Theorem C13_oracle_sound : forall c, in_domain c = true -> corr_b c = true -> prop_b c = true.
+Proof. exact oracle_sound. Qed.
+Print Assumptions C13_oracle_sound.
+
+(** THE DYNAMIC BUILDER'S VALIDATION ([exchange_supports_instrument_kind_sub_kind], used by
+    [validate_subscriptions] before any connection is made) accepts exactly the (exchange,
+    instrument kind, subscription kind) triples for which [DynamicStreams::init] has a connector
+    arm ([routed_pair]) and whose instrument kind the venue endpoint serves ([venue_serves]);
+    the typed per-connector validation accepts at least what the venue serves. *)
+Theorem C13_builder_accepts_exactly_supported : forall e k sk,
+  supports_triple e k sk = (routed_pair e sk && venue_serves e k)%bool.
+Proof. exact supports_triple_spec. Qed.
+Print Assumptions C13_builder_accepts_exactly_supported.
+
+Theorem C13_typed_validation_accepts_served : forall e k,
+  venue_serves e k = true -> supports_kind e k = true.
+Proof. exact venue_serves_supports_kind. Qed.
+Print Assumptions C13_typed_validation_accepts_served.
+
+(** oracle soundness for the builder-validation observations: observed = model implies the
+    oracle holds (per triple and per validated batch) *)
+Theorem C13_support_oracle_sound :
+  (forall t, triple_corr t = true -> triple_prop t = true) /\
+  (forall b, batch_corr b = true -> batch_prop b = true).
+Proof. exact support_oracle_sound. Qed.
+Print Assumptions C13_support_oracle_sound.
+
 (** Non-vacuity: concrete subscription sets satisfy the hypotheses (similar prefixes, mixed
     case, a dated future at the turn of the year, a Bitfinex confirmation table) and the
     transformer attributes / rejects as stated. *)
